@@ -58,7 +58,41 @@ def nt_log(mode, case):
     return None
 
 
-NONTRIVIAL = {"C20": nt_log}
+def nt_codec(mode, case):
+    t = case.split()
+    if t[0] == "P":
+        # distinct (type, dialect, buffer relation, first string-length class)
+        i = case.index(" ; R ")
+        head = case[:i].split()
+        kind = head[5]
+        rtag = case[i + 5:i + 8]
+        lens = sorted(set(len(x) // 2 for x in head[6:] if len(x) > 6 and not x.isdigit()))
+        return h("%s/%s/%s/%s" % (kind, t[1], rtag, lens[:3]))
+    if t[0] in ("D", "RR"):
+        return h(case[:4000])
+    if t[0] == "X":
+        # distinct (type byte, dialect, outcome class, length)
+        hx = t[2]
+        ty = hx[8:10] if len(hx) >= 10 else "--"
+        i = case.index(" ; U ")
+        out = case[i + 5:i + 8]
+        return h("%s/%s/%s/%d" % (ty, t[1], out, len(hx) // 2))
+    if t[0] == "XD":
+        return h(case[:3000])
+    return None
+
+
+def nt_recv(mode, case):
+    # non-trivial: at least two segments; distinct by (stream, segmentation)
+    t = case.split()
+    try:
+        k = int(t[t.index("SEG") + 1])
+    except Exception:
+        return None
+    return h(case[:200000]) if k >= 2 else None
+
+
+NONTRIVIAL = {"C20": nt_log, "C01": nt_codec, "C02": nt_codec, "C13": nt_recv}
 
 
 def nontrivial_key(prop, mode, case):
@@ -73,7 +107,34 @@ def nontrivial_key(prop, mode, case):
 
 NOT_YET = {}
 
+CODEC_NOTE = ("Trusted: Coq kernel; translator for message numbers and the minFcsize/minFcusize tables (a changed table entry is re-checked by the proofs); "
+              "extraction (ExtrOcamlBasic only) and the OCaml driver; the Go harness and its generators. Go's copy/slice semantics are modelled by list operations. "
+              "The layout specification (Codec/Msg.v: layout, spec_encode) is transcribed from the 9P manual pages and is itself trusted as the protocol's definition. "
+              "Print Assumptions: closed under the global context.")
+
 PROPS = {
+    "C01": {
+        "modes": [{"name": "codec", "harness": "codec", "modelcheck": "codec"}],
+        "rule": "all 27 message types x {9P2000, 9P2000.u} x integer fields at 0/1/max-1/max/random x string length classes {0,1,2,255,256,65534,65535,random} with arbitrary bytes x 0..16 and 65535 walk names/qids x payloads up to >64 KiB x buffers exact / one short / larger, dirty with a random byte; "
+                "PackX, SetTag, Unpack, PackDir, UnpackDir, InitRread+SetRreadCount run on the real code; the oracle compares the bytes with spec_encode (the independent layout) and the decoded fields with the input; the correspondence compares the Coq models pack/set_tag/unpack/pack_dir/unpack_dir/rread_two_step with the Go functions. "
+                "Non-trivial/distinct: distinct (type, dialect, pack outcome, string-length classes) for messages; distinct content for stat records and two-step reads.",
+        "level_text": "Coq theorems (Props/C01.v): for every message value representable on the wire, both dialects and ANY previous buffer contents, the model of each PackT*/PackR* constructor produces exactly spec_encode (size[4] type[1] tag[2] fields, size = packet length), refuses a buffer one byte short, SetTag changes only offsets 5-6, Unpack of those bytes (followed by anything) returns the same field values and consumes exactly the packet, stat records round-trip on their own, and InitRread/SetRreadCount equals the one-step Rread. Unbounded quantification over field values, string lengths 0..65535 and list lengths; the differential check ties the hand-written model to the Go functions on generated messages.",
+        "level_note": CODEC_NOTE + " Values not representable on the wire (strings > 65535 bytes, > 65535 names) are outside the model (Go's pstr then overlaps writes).",
+    },
+    "C02": {
+        "modes": [{"name": "decode", "harness": "decode", "modelcheck": "codec"}],
+        "rule": "hostile byte strings against Unpack/UnpackDir under recover: every truncation of the canonical packet of every type in both dialects (size field kept and size field adjusted), declared-size variations -9..+13 and extremes, single-byte substitutions over header and first 24 body bytes, every 16-bit field forced to 0/1/0x8000/0xffff, trailing garbage inside the declared size, all 256 type bytes x short bodies, random frames; each also decoded on exactly the declared prefix and with junk appended, re-encoded with the library's own constructors and decoded again; TotalAlloc delta measured on every 5th frame. "
+                "Non-trivial/distinct: distinct (type byte, dialect, outcome class, length).",
+        "level_text": "Coq theorems (Props/C02.v) over the line-by-line model of Unpack/gstat/UnpackDir in which a short slice read is an explicit Panic: for EVERY byte string and either dialect the decoder never panics; on success the consumed length equals the size prefix (7 <= n <= input length), the type is a defined message type, every decoded field is within its wire type; the result depends only on the declared prefix; input-dependent allocations are bounded by 8x the input length; re-encoding the decoded fields decodes to the same fields. The model is tied to the Go code by exact differential comparison (outcome class, tag, size, every field) on ~36k hostile frames per quick run.",
+        "level_note": CODEC_NOTE + " Allocation is modelled as the arguments of the three input-dependent make() sites (runtime allocator overhead trusted; the harness bounds the measured TotalAlloc).",
+    },
+    "C13": {
+        "modes": [{"name": "recv", "harness": "recv", "modelcheck": "recv"}],
+        "rule": "request streams of 8-40 independent messages (tiny and near-msize Twrite payloads, unknown fids, flushes, walks) with msize 64..4096 so the 8*msize buffer wraps and is reallocated, some ending in an oversize / undersize / undecodable frame; each stream is fed to the real server through a transport whose Read returns exactly the chosen segments: whole stream, every single split point (sampled in quick), one byte at a time, 30 random k-way splits. Oracle: delivered requests (tag, type, frame md5, payload md5 at delivery and at the end), reply bytes and close decision identical to the reference segmentation; correspondence: the Coq loop model on the same segments delivers the same frames and closes iff the server does. Non-trivial: >= 2 segments; distinct by (stream, segmentation).",
+        "level_text": "Coq theorems (Props/C13.v): the model of both receive loops (buffer length/pos bookkeeping, inner framing loop, size check, reallocation, parameters re-read after a synchronous Tversion) delivers, for ANY segmentation of the stream into transport reads, exactly the frames of a framing specification that is a function of the concatenated stream only; it closes on a bad frame iff the specification does; it never issues an empty Read; the buffer stays within 8*msize. Unbounded in stream length, message count and segmentation. Tied to the code by running the real server under thousands of segmentations and comparing with the model.",
+        "level_note": "Trusted: Coq kernel; translator for the 8*msize buffer factor and IOHDRSZ; extraction and OCaml driver; the Go harness (segment-exact fake net.Conn, hook recv.enqueued as delivery log). The loop model calls the decoder on the accumulated bytes and relies on C02's prefix-only theorem for the stale bytes behind pos; payload immutability (views are never overwritten) is checked by the harness (payload md5 at delivery vs. at the end), not proved; the client loop is proved on the model and tied through the C09/C10 client harness. Print Assumptions: closed under the global context.",
+        "assumptions": ["net.Conn.Read returns between 1 and len(p) bytes of the stream in order"],
+    },
     "C20": {
         "level_text": "Coq theorems (Props/C20.v) over the ring/LTS model of log.go: for every capacity >= 1 and every Log/Filter sequence the index-arithmetic model of doLog's two passes returns exactly the matching entries of the last min(k,N) logged, in order, never panicking or running out of fuel; in the producer/channel/logger LTS every Filter result is the window of a prefix of an order-preserving merge, Filter converges once the channel drains, and the logger is never stuck. The model is tied to the code by exact differential comparison of sequential Log/Filter histories on the real Logger and by the Coq-defined oracle on concurrent histories.",
         "level_note": "Trusted: Coq kernel; translator for cap_logchan; extraction (ExtrOcamlBasic only) and the OCaml driver; the Go harness. Assumed: goroutine scheduling fairness for convergence; pointer identity of *Log modelled by unique ids. Resize is not part of the property and is not modelled. Print Assumptions: closed under the global context.",
